@@ -308,6 +308,37 @@ def run_cases(mod, ctx: Ctx, shard: int, nshards: int,
                 break
 
 
+import contextlib
+
+
+@contextlib.contextmanager
+def silence_stdout():
+    """Send everything written to stdout (Python level and file descriptor 1)
+    to a scratch file while library code that insists on printing runs."""
+    sys.stdout.flush()
+    saved_fd = os.dup(1)
+    sink = os.path.join(workdir(), "stdout.sink")
+    devnull = os.open(sink, os.O_WRONLY | os.O_CREAT | os.O_TRUNC)
+    saved_py = sys.stdout
+    try:
+        os.dup2(devnull, 1)
+        sys.stdout = open(sink, "w")
+        yield
+    finally:
+        try:
+            sys.stdout.close()
+        except Exception:
+            pass
+        sys.stdout = saved_py
+        try:
+            saved_py.flush()      # text that was written to the original object's
+        except Exception:         # buffer in the meantime also goes to the sink
+            pass
+        os.dup2(saved_fd, 1)
+        os.close(saved_fd)
+        os.close(devnull)
+
+
 class CaseTimeout(BaseException):
     """A single case exceeded its generous wall-clock watchdog: inconclusive."""
 
